@@ -72,6 +72,7 @@ type c18CmGate struct {
 type c18CmEst struct {
 	id   uint64
 	addr int
+	req  *connmgr.ConnReq
 }
 
 type c18CmRig struct {
@@ -173,7 +174,7 @@ func c18NewCmRig(target int, ban bool, lockstep bool, retry time.Duration) (*c18
 		},
 		OnConnection: func(c *connmgr.ConnReq, _ net.Conn, _ *zerolog.Logger) {
 			r.mu.Lock()
-			r.est = append(r.est, c18CmEst{id: c.ID(), addr: c.Addr.(*c18CmAddr).idx})
+			r.est = append(r.est, c18CmEst{id: c.ID(), addr: c.Addr.(*c18CmAddr).idx, req: c})
 			r.cond.Broadcast()
 			r.mu.Unlock()
 		},
